@@ -73,26 +73,7 @@ Lemma ex2_read_result :
   = Ok [(mkM 0 128 11000 5 (Some 109), [POffset 0]); (mkM 128 128 11000 5 (Some 117), [POffset 128])].
 Proof. vm_compute. reflexivity. Qed.
 
-(* what the code did before the four C10 repairs *)
-Lemma legacy_read_refuted :
-  (* return_payload = False: UnboundLocalError *)
-  read_log legacy (cfg_of None true false false true false) ex_file None None None = Err UnboundLocalError /\
-  (* absolute range [10 s, 20 s) on a log ending at 3 s: the whole log *)
-  (exists l, read_log legacy (cfg_of None false true false true false) ex_file None None (Some (abs_range (Some 80) (Some 160))) = Ok l /\ length l = 8%nat) /\
-  spec_read (cfg_of None false true false true false) ex_file None None (Some (abs_range (Some 80) (Some 160))) = [] /\
-  (* types {Event} + absolute range [2 s, 3 s): four events instead of one *)
-  (exists l, read_log legacy (cfg_of None false true false true false) ex_file None (Some [13004]) (Some (abs_range (Some 16) (Some 24))) = Ok l /\ length l = 4%nat) /\
-  length (spec_read (cfg_of None false true false true false) ex_file None (Some [13004]) (Some (abs_range (Some 16) (Some 24)))) = 1%nat /\
-  (* source_ids = {5}: nothing, although two messages have source 5 *)
-  read_log legacy (cfg_of None false true false true false) ex2_file (Some [5]) None None = Ok [] /\
-  length (spec_read (cfg_of None false true false true false) ex2_file (Some [5]) None None) = 2%nat.
-Proof.
-  split; [vm_compute; reflexivity|]. split; [eexists; split; [vm_compute; reflexivity|reflexivity]|].
-  split; [vm_compute; reflexivity|]. split; [eexists; split; [vm_compute; reflexivity|reflexivity]|].
-  split; [vm_compute; reflexivity|]. split; vm_compute; reflexivity.
-Qed.
-
-(* the two recorded findings: where the unconditional statement is false of the repaired code *)
+(* logs for the recorded finding and for the source-id sampling defect *)
 Definition ex3_file : file := mkFile [mkM 0 48 13004 0 None; mkM 48 40 13003 0 None; mkM 88 33 60001 3 None] 121.
 Lemma ex3_file_wf : wf_file ex3_file.
 Proof. unfold ex3_file. wf_by_computation. Qed.
@@ -104,32 +85,50 @@ Definition ex4_file : file := mkFile ex4_msgs 1968.
 Lemma ex4_file_wf : wf_file ex4_file.
 Proof. unfold ex4_file, ex4_msgs. cbn [map seq app Z.of_nat]. wf_by_computation. Qed.
 
+(* what the code did before the five C10 repairs *)
+Lemma legacy_read_refuted :
+  (* return_payload = False: UnboundLocalError *)
+  read_log legacy (cfg_of None true false false true false) ex_file None None None = Err UnboundLocalError /\
+  (* absolute range [10 s, 20 s) on a log ending at 3 s: the whole log *)
+  (exists l, read_log legacy (cfg_of None false true false true false) ex_file None None (Some (abs_range (Some 80) (Some 160))) = Ok l /\ length l = 8%nat) /\
+  spec_read (cfg_of None false true false true false) ex_file None None (Some (abs_range (Some 80) (Some 160))) = [] /\
+  (* types {Event} + absolute range [2 s, 3 s): four events instead of one *)
+  (exists l, read_log legacy (cfg_of None false true false true false) ex_file None (Some [13004]) (Some (abs_range (Some 16) (Some 24))) = Ok l /\ length l = 4%nat) /\
+  length (spec_read (cfg_of None false true false true false) ex_file None (Some [13004]) (Some (abs_range (Some 16) (Some 24)))) = 1%nat /\
+  (* source_ids = {5}: nothing, although two messages have source 5 *)
+  read_log legacy (cfg_of None false true false true false) ex2_file (Some [5]) None None = Ok [] /\
+  length (spec_read (cfg_of None false true false true false) ex2_file (Some [5]) None None) = 2%nat /\
+  (* a requested source id first seen after populate_count messages of its type was dropped from the request
+     (here with only that defect present: every other repair in place) *)
+  (exists l, read_log (mkFx true true true true true true false) (cfg_of None false true false true false) ex4_file (Some [1; 2]) None None = Ok l /\ length l = 11%nat) /\
+  length (spec_read (cfg_of None false true false true false) ex4_file (Some [1; 2]) None None) = 12%nat.
+Proof.
+  split; [vm_compute; reflexivity|]. split; [eexists; split; [vm_compute; reflexivity|reflexivity]|].
+  split; [vm_compute; reflexivity|]. split; [eexists; split; [vm_compute; reflexivity|reflexivity]|].
+  split; [vm_compute; reflexivity|]. split; [vm_compute; reflexivity|]. split; [vm_compute; reflexivity|].
+  split; [eexists; split; [vm_compute; reflexivity|reflexivity]|vm_compute; reflexivity].
+Qed.
+
 Lemma known_findings_witnesses :
   (* a time range on a log without any P1 time: IndexError; the SPEC selects all three messages (open start) *)
   read_log fixed (cfg_of None false true false true false) ex3_file None None (Some (rel_range None (Some 240))) = Err IndexError /\
-  length (spec_read (cfg_of None false true false true false) ex3_file None None (Some (rel_range None (Some 240)))) = 3%nat /\
-  (* a requested source id first seen after populate_count messages of its type is dropped *)
-  (exists l, read_log fixed (cfg_of None false true false true false) ex4_file (Some [1; 2]) None None = Ok l /\ length l = 11%nat) /\
+  length (spec_read (cfg_of None false true false true false) ex3_file None None (Some (rel_range None (Some 240)))) = 3%nat.
+Proof. split; vm_compute; reflexivity. Qed.
+
+(* since the repair the late source id is returned *)
+Lemma late_source_result :
+  read_log fixed (cfg_of None false true false true false) ex4_file (Some [1; 2]) None None
+  = Ok (spec_read (cfg_of None false true false true false) ex4_file (Some [1; 2]) None None) /\
   length (spec_read (cfg_of None false true false true false) ex4_file (Some [1; 2]) None None) = 12%nat.
-Proof.
-  split; [vm_compute; reflexivity|]. split; [vm_compute; reflexivity|].
-  split; [eexists; split; [vm_compute; reflexivity|reflexivity]|vm_compute; reflexivity].
-Qed.
+Proof. split; vm_compute; reflexivity. Qed.
 
 (* the hypotheses of the main theorem hold for the example (non-vacuity) *)
 Definition ex_c : cfg := cfg_of None true true true true true.
 Definition ex_R : option trange := Some (abs_range (Some 16) (Some 24)).
 
 Lemma ex_hypotheses :
-  wf_file ex_file /\ range_has_t0 ex_c ex_file ex_R /\ discovery_complete (with_range ex_c ex_R) ex_file (Some [0]) /\
-  discovery_complete (with_range ex_c None) ex2_file (Some [5]).
-Proof.
-  split; [exact ex_file_wf|]. split; [right; exact ex_has_t0|]. split.
-  - intros m Hin _. unfold ex_file, ex_msgs in Hin. cbn [f_msgs] in Hin.
-    repeat (destruct Hin as [<-|Hin]; [vm_compute; reflexivity|]). destruct Hin.
-  - intros m Hin _. unfold ex2_file in Hin. cbn [f_msgs] in Hin.
-    repeat (destruct Hin as [<-|Hin]; [vm_compute; reflexivity|]). destruct Hin.
-Qed.
+  wf_file ex_file /\ range_has_t0 ex_c ex_file ex_R /\ wf_file ex4_file.
+Proof. split; [exact ex_file_wf|]. split; [right; exact ex_has_t0|exact ex4_file_wf]. Qed.
 
 Definition read_is_filter_full : Prop :=
   forall c f srcs types R, wf_file f -> read_log fixed c f srcs types R = Ok (spec_read c f srcs types R).
